@@ -5,10 +5,10 @@ cd "$(dirname "$0")/.."
 for seed in "$@"; do
   for c in $(python3 -c "import json;print(' '.join(x['property_id'] for x in json.load(open('MANIFEST.json'))['checks']))"); do
     s=$(date +%s)
-    VERIF_SEED=$seed ./check $c --tier quick --no-evidence > /tmp/soak_$c_$seed.txt 2>&1
+    VERIF_SEED=$seed ./check $c --tier quick --no-evidence > /tmp/soak_${c}_${seed}.txt 2>&1
     rc=$?
     e=$(( $(date +%s) - s ))
-    echo "seed=$seed $c rc=$rc ${e}s $(grep -E '^(OK|VIOLATION|CHECK-ERROR)' /tmp/soak_$c_$seed.txt | head -2 | cut -c1-200 | tr '\n' ' ')" >> $out
+    echo "seed=$seed $c rc=$rc ${e}s $(grep -E '^(OK|VIOLATION|CHECK-ERROR)' /tmp/soak_${c}_${seed}.txt | head -2 | cut -c1-200 | tr '\n' ' ')" >> $out
   done
 done
 echo "SOAK-DONE $*" >> $out
